@@ -606,11 +606,11 @@ func c06Handshake(in *c06In, aes bool) Result {
 	}
 	_ = hostT
 	mk := func(start int, version uint16, asked bool, obs string) string {
-		return cApp("CHandshake", cBool(aes), cList(raw), cStr("127.0.0.1:443"), cStr(in.SNI), cN(uint64(in.CMin)), cN(uint64(in.CMax)),
+		return cApp("CHandshake", cBool(aes), cList(raw), cStr("127.0.0.1:443"), cStr(in.Dflt), cStr(in.SNI), cN(uint64(in.CMin)), cN(uint64(in.CMax)),
 			cStr(rhost), cN(uint64(start)), cN(uint64(version)), cBool(asked), obs)
 	}
 	sig := "handshake:plain"
-	if s := c06ServeSig(&c06In{Sites: in.Sites, TLS: true, SNI: in.SNI, Host: in.Host}, hosts); s != "serve:plain" {
+	if s := c06ServeSig(&c06In{Sites: in.Sites, TLS: true, SNI: in.SNI, Host: in.Host, Dflt: in.Dflt}, hosts); s != "serve:plain" {
 		sig = "handshake:" + strings.TrimPrefix(s, "serve:")
 	}
 	// certificate selection (certmagic) is not part of the property: give the listener a
@@ -619,6 +619,13 @@ func c06Handshake(in *c06In, aes bool) Result {
 	if n := strings.ToLower(in.SNI); n != "" {
 		names = append(names, n)
 	}
+	if n := strings.ToLower(strings.TrimSpace(in.Dflt)); n != "" && net.ParseIP(n) == nil {
+		names = append(names, n)
+	}
+	// the default server name (-default-sni) in force while the instance runs
+	oldDflt := certmagic.Default.DefaultServerName
+	certmagic.Default.DefaultServerName = in.Dflt
+	defer func() { certmagic.Default.DefaultServerName = oldDflt }()
 	cp, kp, _ := c06SelfSigned("verif-server", names, []net.IP{net.ParseIP("127.0.0.1"), net.ParseIP("::1")}, false)
 	os.WriteFile(c06Files.cert, cp, 0o644)
 	os.WriteFile(c06Files.key, kp, 0o600)
@@ -1235,6 +1242,14 @@ func c06GenHandshake(r *Rand) *c06In {
 		h := "[" + base + ":80]:90"
 		in.Host = &h
 	}
+	if base == "" && r.Chance(45) {
+		// no SNI: a default server name aimed at the sites' patterns (exact, through a wildcard, none)
+		d := c06NameFor(r, pats)
+		if d == "" || strings.ContainsAny(d, ":*") || strings.HasSuffix(d, ".") || strings.Contains(d, "..") {
+			d = r.Pick([]string{"x.a.com", "z.org", "b.com", "q.a.com"})
+		}
+		in.Dflt = c06Decorate(r, d, false)
+	}
 	a := r.Intn(4)
 	b := a + r.Intn(4-a)
 	in.CMin, in.CMax = c06Versions[a], c06Versions[b]
@@ -1247,7 +1262,7 @@ func c06GenHandshake(r *Rand) *c06In {
 func c06Gen(r *Rand, tier string) []interface{} {
 	c06Setup()
 	var out []interface{}
-	nSplit, nLookup, nDefaults, nSetup, nServe, nSniLess, nHand, nMixed := 250, 1600, 200, 350, 1800, 400, 120, 60
+	nSplit, nLookup, nDefaults, nSetup, nServe, nSniLess, nHand, nMixed := 250, 1600, 200, 350, 1800, 400, 160, 60
 	if tier == "thorough" {
 		nSplit, nLookup, nDefaults, nSetup, nServe, nSniLess, nHand, nMixed = 2500, 16000, 2000, 3500, 18000, 4000, 1200, 600
 	}
